@@ -153,6 +153,7 @@ func C03(e *core.Env) int {
 					rep.Evaluations++
 					cfg := v.cfg
 					cfg.OutPkg = un.u.Out[sh]
+					cfg.SigPkg = un.u.Shards[sh]
 					want := judge.Convertible(un.u.Types[i], un.u.Types[j], cfg)
 					label := un.u.Labels[i] + " -> " + un.u.Labels[j]
 					if want.Depth >= 1 {
@@ -215,6 +216,7 @@ func C03(e *core.Env) int {
 		rep.Violation(&core.Viol{Kind: kind, Case: d.label, Summary: sum + " [" + classList(d.want.Classes) + "]", Detail: fmt.Sprintf("pair %s (%s) variant %s\ngoverter: ok=%v %s\nJ: ok=%v classes=%s", d.pair, d.label, d.variant, d.got.OK, d.got.Err+d.got.Panic, d.want.OK, classList(d.want.Classes)), Tags: tags})
 	}
 	rep.Exhaustive = true
+	c03Random(e, rep)
 	// CLI validation of a sample
 	c03ValidateCLI(e, rep, unis[0].u, cliSamples, variants[0])
 	return rep.Finish()
@@ -295,4 +297,87 @@ func c03ValidateCLI(e *core.Env, rep *core.Report, u *pgen.Universe, pool []c03D
 	})
 	rep.Extra["traces_validated_against_impl"] = agree
 	rep.Extra["cli_validation_sample"] = len(pick)
+}
+
+// c03Random: deep random pairs beyond the enumerated universes: structural cases (convertible by construction) and the
+// same cases with one breaking mutation of the target; J decides what the real CLI must answer.
+func c03Random(e *core.Env, rep *core.Report) {
+	n := tierN(e, 300, 6000)
+	cases := structuralCorpus(e, n, func(i int, o *pgen.StructOpts) {
+		o.NMethods = 1
+		o.NConverters = 1
+		o.Hostile = false
+	})
+	type exp struct {
+		want  judge.Result
+		what  string
+	}
+	expect := map[string]exp{}
+	r := rand.New(rand.NewSource(e.Seed*6151 + 3))
+	for i, c := range cases {
+		what := "unchanged"
+		if i%3 != 0 {
+			if w := pgen.BreakTarget(rand.New(rand.NewSource(r.Int63())), c); w != "" {
+				what = w
+			}
+		}
+		for _, cv := range c.Convs {
+			cv.Spec = nil
+		}
+		cv := c.Convs[0]
+		m := cv.Methods[0]
+		cfg := judge.Cfg{SkipCopy: m.Spec.Flags.SkipCopy, UseZero: m.Spec.Flags.UseZero, EnumOff: false}
+		// accessibility: in the one-package layout everything is accessible from the output package
+		cfg.SigPkg = cv.Pkg
+		if c.Features["samepkg"] == "true" {
+			cfg.OutPkg = cv.Pkg
+		} else {
+			cfg.OutPkg = &pgen.Package{Path: cv.OutPkgPath, Name: cv.OutPkgName}
+		}
+		expect[c.Name] = exp{want: judge.Convertible(m.Params[0].T, m.Result, cfg), what: what}
+	}
+	p, err := runPipelineOpts(e, "c03r", cases, pipeOpts{Execute: false})
+	if err != nil {
+		rep.Inconclusive = append(rep.Inconclusive, err.Error())
+		return
+	}
+	for _, cr := range p.Mod.Cases {
+		ex := expect[cr.Case.Name]
+		rep.Evaluations++
+		rep.Count("random_deep_pairs", 1)
+		got := cr.Gen.Exit == 0
+		if cr.Gen.Exit != 0 && cr.Gen.Exit != 1 {
+			rep.Violation(&core.Viol{Kind: "panic", Case: cr.Case.Name, Summary: "goverter crashed on a random deep pair: " + panicSite(cr.Gen.Stderr), Detail: cr.Gen.Stderr, Dir: cr.Dir})
+			continue
+		}
+		if ex.want.OK {
+			rep.Count("random_judged_convertible", 1)
+		} else {
+			rep.Count("random_judged_not_convertible", 1)
+		}
+		if got != ex.want.OK {
+			kind := "accepts_unconvertible"
+			if ex.want.OK {
+				kind = "rejects_convertible"
+			}
+			rep.Violation(&core.Viol{Kind: kind, Case: cr.Case.Name, Summary: fmt.Sprintf("random deep pair (%s): J says ok=%v [%s], goverter exit %d (%s)", mutationClass(ex.what), ex.want.OK, classList(ex.want.Classes), cr.Gen.Exit, core.Classify(cr.Gen.Stderr)),
+				Detail: "mutation: " + ex.what + "\nfeatures: " + featureString(cr.Case) + "\n" + cr.Gen.Stderr, Dir: cr.Dir, Tags: caseTags(cr.Case)})
+			continue
+		}
+		if !got && len(cr.Written) > 0 {
+			rep.Violation(&core.Viol{Kind: "emits_on_failure", Case: cr.Case.Name, Summary: "rejected pair but files were written", Dir: cr.Dir})
+		}
+		rep.NonTrivial("random|" + cr.Case.Fingerprint() + "|" + ex.what)
+		rep.Set("random_mutations", mutationClass(ex.what))
+	}
+	if len(p.Dropped) > 0 {
+		rep.Extra["random_inputs_dropped"] = len(p.Dropped)
+	}
+}
+
+func mutationClass(w string) string {
+	if i := strings.Index(w, ": "); i >= 0 {
+		return w[i+2:]
+	}
+	return w
 }
